@@ -53,8 +53,16 @@ def S(q):
 def make_nm(init):
     from shangrla.core.NonnegMean import NonnegMean as NM
     kw = {k: float(F(v)) for k, v in init["kw"].items() if v is not None}
-    N = np.inf if init["N"] is None else int(init["N"])
-    args = dict(u=float(F(init["u"])), N=N, t=float(F(init["t"])), random_order=init["ro"])
+    # representations of equal values: an infinite N as numpy's, math's or a parsed float; the random-order flag as
+    # a Python bool, a numpy bool (the result of a numpy comparison) or 0/1
+    inf = {"math": math.inf, "float": float("inf")}.get(init.get("inf_type"), np.inf)
+    N = inf if init["N"] is None else int(init["N"])
+    ro = init["ro"]
+    if init.get("ro_type") == "np":
+        ro = np.bool_(ro)
+    elif init.get("ro_type") == "int":
+        ro = int(ro)
+    args = dict(u=float(F(init["u"])), N=N, t=float(F(init["t"])), random_order=ro)
     if init.get("test") is not None:
         args["test"] = getattr(NM, init["test"])
     if init.get("estim") is not None:
@@ -94,7 +102,10 @@ def xs(case):
         if isinstance(case["int_dtype"], str):
             return np.array([int(v) for v in vals], dtype=np.dtype(case["int_dtype"]))
         return np.array([int(v) for v in vals])
-    return np.array([float(v) for v in vals], dtype=float)
+    a = np.array([float(v) for v in vals], dtype=float)
+    if case.get("negzero"):
+        a[a == 0] = -0.0          # IEEE negative zero: equal to 0, inside [0,u]
+    return a
 
 
 def flo(a):
@@ -137,10 +148,25 @@ def impl(case):
             reuse = f"a used test object raised {type(e).__name__} on a sample a fresh object accepts"
         res["reuse"] = reuse
         return res
-    if op == "estim":
-        return {"st": "ok", "v": bc(nm.estim(x), len(x))}
-    if op == "bet":
-        return {"st": "ok", "v": bc(nm.bet(x), len(x))}
+    if op in ("estim", "bet"):
+        f = (lambda o, z: o.estim(z)) if op == "estim" else (lambda o, z: o.bet(z))
+        v = f(nm, x)
+        # the result is HELD while another, independent object computes on another sample of the same length (two
+        # assertions of one contest): what was returned for this sample must still be what it was
+        before = bc(v, len(x))
+        try:
+            other = make_nm(dict(case["init"], t=S(F(case["init"]["t"]) / 8), u_now=None))
+            xo = np.array(x, dtype=float)[::-1].copy() / 4
+            with np.errstate(all="ignore"):
+                f(other, xo)
+        except Exception:  # noqa
+            pass
+        after = bc(v, len(x))
+        res = {"st": "ok", "v": before}
+        if not np.array_equal(np.asarray(before), np.asarray(after), equal_nan=True):
+            res["held"] = (f"the array returned by {op}() changed after an independent object computed on another sample "
+                           f"of the same length: {before[:6]} became {after[:6]}")
+        return res
     if op == "conv":
         lam = np.array([float(F(v)) for v in case["lam"]])
         mu = np.array([float(F(v)) for v in case["mu"]])
@@ -173,6 +199,8 @@ def compare(case, ir, mr):
             return (f"history differs at {bad[:5]} (len impl {len(ir['hist'])} model {len(mr['hist'])}): "
                     f"impl {ir['hist'][i] if bad else None!r} model {mr['hist'][i] if bad else None}")
         return None
+    if op in ("estim", "bet") and ir.get("held"):
+        return ir["held"]
     if op in ("estim", "bet"):
         # sqrt is approximated to 30 digits in the driver; estimates agree to 1e-9
         if not nums_close(ir["v"], mr["v"]):
@@ -525,6 +553,13 @@ def gen_case(rng, tier, op="test", force_test=None, us=None):
     case = {"op": op, "init": init, "x": [S(v) for v in x], "stream": stream}
     if x and all(F(v).denominator == 1 for v in x) and rng.chance(0.5):
         case["int_dtype"] = True
+    # representations of equal values (see make_nm / xs)
+    if rng.chance(0.15):
+        init["ro_type"] = rng.choice(["np", "np", "int"])
+    if N is None and rng.chance(0.2):
+        init["inf_type"] = rng.choice(["math", "float"])
+    if not case.get("int_dtype") and any(F(v) == 0 for v in x) and rng.chance(0.1):
+        case["negzero"] = True
     return case
 
 
@@ -1343,6 +1378,8 @@ def prefix(x):
 
 def oracle_c13(case, ir):
     """range of the shipped estimators / bets on the implementation"""
+    if ir.get("held"):
+        return {"what": ir["held"]}
     init = case["init"]
     if case.get("stream") == "malformed" or not case["x"]:
         return None
@@ -1470,6 +1507,8 @@ def _c05_param(init, op, x, base, what):
 def oracle_c05(case, ir):
     """non-anticipation, metamorphic on the implementation: change the tail, keep the head
     (several cut points, several replacement tails incl. shorter and longer ones); truncate"""
+    if ir.get("held"):
+        return {"what": "the value reported for draw j no longer depends on this sample alone: " + ir["held"]}
     if case.get("stream") == "malformed" or ir.get("st") != "ok" or len(case["x"]) < 2:
         return None
     init = case["init"]
